@@ -7,7 +7,7 @@ from .. import bits, paths
 from ..core import call_attr, calls_in, const, dotted, is_const, kwarg, norm, slice_parts, text, walk_local
 
 EXPLANATION = [
-    'C08.poll: the receiver-ready poll carries P=1 (F=0), both bits are forwarded into the S-frame, a frame received with P=1 is answered with F=1, and a frame with F=1 cancels the sender\'s monitor timer: the poll/final handshake closes.',
+    'C08.poll: the receiver-ready poll carries P=1 (F=0), both bits are forwarded into the S-frame, a frame received with P=1 is answered with F=1, and a frame with F=1 cancels the sender\'s monitor timer and resumes output on every path of _update_ack_seq that does not reject the acknowledgement (also when it acknowledges nothing new): the poll/final handshake closes.',
     'C08.peer-params: the TxWindow / MaxTransmit / MPS the ERTM sender obeys are the ones unpacked from the peer\'s Configure Request (same field order as packed), forwarded by name through the factory and stored under their own names.',
     'C08.ctrl-bits: parse and serialise bit layouts of the I-frame and S-frame '
     'enhanced control fields agree field by field and no two serialised fields '
@@ -492,6 +492,30 @@ def poll_final(ctx):
     first = next((c for c in calls_in(onp) if dotted(c.func) == 'self._update_ack_seq'), None)
     ok = first is not None and len(first.args) == 2 and 'final' in norm(first.args[1]) and any(isinstance(n, ast.If) and 'is_poll_response' in norm(n.test) and any(norm(x) == 'self._monitor_handle = None' for x in n.body) for n in walk_local(upd))
     R.check(ok, rule, f'{ERTM}._update_ack_seq | F=1 releases the sender', 'a frame with F=1 cancels the monitor timer', 'the answer to a poll does not release the sender', p.loc(upd))
+    # ... on every path that accepts the acknowledgement (whatever number of frames it acknowledges), and output resumes there
+    class Rel(paths.Domain):
+        # value: (monitor cleared, output resumed, rejected as exceeding the window)
+        def event(self, node, v):
+            if isinstance(node, ast.Assign) and dotted(node.targets[0]) == 'self._monitor_handle' and norm(node.value) == 'None':
+                return ((True, v[1], v[2]),)
+            if isinstance(node, ast.Call) and dotted(node.func) == 'self._process_output':
+                return ((v[0], True, v[2]),)
+            return (v,)
+
+        def assume(self, atom, truth, v):
+            t = norm(atom)
+            if t == 'is_poll_response':
+                return (v,) if truth else ()
+            if t == 'self._monitor_handle':
+                return (v,) if truth else ()
+            if t == 'num_frames_acked > len(self._tx_window)':
+                return ((v[0], v[1], truth),)
+            return (v,)
+    res = paths.run(upd, Rel(), (False, False, False))
+    outs = {(k, v) for k, st in res.items() if not k.startswith('raise') for v in st}
+    stuck = sorted(f'{k}: monitor {"cleared" if v[0] else "still armed"}, output {"resumed" if v[1] else "not resumed"}' for k, v in outs if not v[2] and not (v[0] and v[1]))
+    R.check(bool(outs) and not stuck, rule, f'{ERTM}._update_ack_seq | F=1 releases on every accepted path', 'with F=1 and the monitor armed, every path that does not reject the acknowledgement clears the monitor and resumes output',
+            'an acknowledgement with F=1 can return with the monitor timer still armed (e.g. when it acknowledges nothing new): output stays blocked although the peer answered the poll', p.loc(upd), stuck[:3])
 
 
 RULES = [
